@@ -717,6 +717,10 @@ func (st *state) applyDefaults(instancep reflect.Value, schema *Schema) (err err
 			if kt := instance.Type().Key(); kt.Kind() != reflect.String {
 				return fmt.Errorf("map key type %s is not a string", kt)
 			}
+			if instance.IsNil() {
+				// Nothing can be added to a nil map (for example, one that came from a null default).
+				return nil
+			}
 		}
 		for prop, subschema := range schema.Properties {
 			// Ignore defaults on required properties. (A required property shouldn't have a default.)
